@@ -34,6 +34,7 @@ Definition s_save : str := [115;97;118;101;95].            (* "save_" *)
 Definition s_save_nl : str := [115;97;118;101;95;10].      (* "save_\n" *)
 Definition s_data : str := [100;97;116;97;95].             (* "data_" *)
 Definition s_hash_nl : str := [35;10].                     (* "#\n" *)
+Definition s_global : str := [103;108;111;98;97;108;95].   (* "global_" *)
 
 (* write_text_field: one os.write per stretch between "\r\n" occurrences; the search restarts at the
    '\n' of the pair found, i.e. exactly the '\r's directly followed by '\n' are left out. *)
@@ -151,7 +152,8 @@ Fixpoint items_ops (o : opts) (prev : option item) (items : list item) : list op
 
 (* write_cif_block_to_stream: one BufOstream per block *)
 Definition block_ops (o : opts) (b : block) : list op :=
-  OWrite s_data :: OWrite (bname b) :: OPut nl ::
+  (if is_nil (bname b) then [OWrite s_global] else [OWrite s_data; OWrite (bname b)]) ++
+  OPut nl ::
   (if misuse_hash o then [OWrite s_hash_nl] else []) ++
   items_ops o None (bitems b) ++
   (if misuse_hash o then [OWrite s_hash_nl] else []).
